@@ -4,7 +4,7 @@ from fractions import Fraction
 import lib, storelib as S
 from lib import Result, RMODES, OMODES, e_fmt, e_list, e_dy, model_call, run_sharded, Reader, outcome
 
-ROUTES = ['resize', 'resize_dtype', 'like_kw', 'like_method', 'ctor', 'set_val', 'call', 'equal', 'setitem']
+ROUTES = ['resize', 'resize_dtype', 'like_kw', 'like_method', 'ctor', 'set_val', 'call', 'equal', 'setitem', 'setitem_resized']
 SRC_BUILDS = ['raw', 'float', 'int', 'indexed']
 RULE = ('source/destination format pairs of the core domain (exhaustive source codes for n_word<=3 quick / <=6 thorough, random and boundary codes up to 52 bits, and codes whose rescaled value sits at the 2^62..2^65 machine boundary), all 10 destination mode pairs, '
         '9 conversion routes (resize by sizes, resize by dtype string, like=, like(), constructor, set_val, call, equal, indexed assignment of Fxp elements), scalar / 1-D / 2-D sources built from raw codes, '
@@ -54,6 +54,23 @@ def convert(fx, np, src, route, ds, dnw, dnf, r, o):
     if route == 'set_val': d.set_val(src); return d
     if route == 'call': d(src); return d
     if route == 'equal': d.equal(src); return d
+    if route == 'setitem_resized':
+        # indexed assignment into a destination ARRAY that reached its format by an in-place resize from the format of the other
+        # signedness (what an earlier conversion leaves behind - carrier type, value type - must not matter)
+        pre = (not ds, max(1, dnw - 1) if ds else dnw + 1, dnf)
+        n = max(2, int(np.prod(src.shape)) if src.shape != () else 2)
+        d = fx.Fxp(np.ones(n, dtype=int).reshape(src.shape if src.shape != () and len(src.shape) > 0 and int(np.prod(src.shape)) >= 2 else (n,)), *pre, raw=True, **kw)
+        d.resize(ds, dnw, dnf); d.reset()
+        if src.shape == ():
+            d[1] = src; e = d[1]; e.status = d.status; return e
+        if int(np.prod(src.shape)) < 2:
+            d[0] = src[0] if len(src.shape) == 1 else src[0][0]; e = d[0:1] if len(src.shape) == 1 else d[0:1]
+            e.status = d.status; return e if len(src.shape) == 1 else e.reshape(src.shape) if hasattr(e, 'reshape') else e
+        if len(src.shape) == 1:
+            for i in range(src.shape[0]): d[i] = src[i]
+        else:
+            d[:] = src
+        return d
     if route == 'setitem':
         if src.shape == ():
             d = fx.Fxp([0, 0], ds, dnw, dnf, **kw); d[1] = src
